@@ -112,15 +112,7 @@ theorem include_isolated (c : RCtx) (line : Nat) (args : Bytes) (s : RS) :
         cases st with
         | done =>
           simp only [bind, M.bind]
-          refine AllRet.bind (?_ : AllRet (fun r : Unit × RS => r.2.env = s1.env) (writeM out s1)) (fun _ h => .ret _ h)
-          unfold writeM
-          simp only
-          split
-          · exact .ret _ rfl
-          · refine .call _ _ (fun r => ?_)
-            cases r with
-            | ok => exact .ret _ rfl
-            | failed n => exact .fail _
+          exact AllRet.bind (allRet_writeVerbatim_env out s1) (fun _ h => .ret _ h)
         | brk e => exact .ret _ rfl
         | cont e => exact .ret _ rfl
       · exact .fail _
@@ -139,7 +131,7 @@ theorem include_sees_vars (c : RCtx) (line : Nat) (args : Bytes) (s : RS) (e : E
       wrapAt c.cfg.path ⟨line, true⟩ (fun s0 =>
         (c.inc line (joinPath (dirPath c.cfg.path) rel) s.env).bind fun (st, out) =>
           match st with
-          | .done => (writeM out s0).bind fun (_, s1) => .ret (.done, s1)
+          | .done => (writeVerbatimM out s0).bind fun (_, s1) => .ret (.done, s1)
           | st => .ret (st, s0)) s := by
   unfold renderNode
   simp only [wrapAt, bind, M.bind, M.getEnv, Prog.bind, he, Res.mapErr, M.ofRes, pure, M.pure, hv, Prog.bind_assoc]
@@ -150,26 +142,23 @@ theorem include_sees_vars (c : RCtx) (line : Nat) (args : Bytes) (s : RS) (e : E
 
 /-! ## Capture equivalence -/
 
-/-- printing a variable that holds captured text `out` is one write of `out` -/
+/-- printing a variable that holds captured text `out` is one verbatim write of `out`: the text
+    pending goes out, then `out`, unchanged whatever the trim flag; nothing stays pending -/
 theorem print_str_var (c : RCtx) (hO : ∀ b, c.O.chunks (.str b) = .ok [b]) (line : Nat) (x out : Bytes) (s : RS)
     (hx : s.env.get x = .str out) :
     (renderList c [.obj line (.var x)] s).runPure =
-      (s.tw.buf, .ok (.done, { env := s.env,
-                               tw := { buf := if s.tw.trim then trimLeftSpace out else out, trim := false } })) := by
+      (s.tw.buf ++ out, .ok (.done, { env := s.env, tw := { buf := [], trim := false } })) := by
   have hev : evaluate c.P s.env (.var x) = .ok (.str out) := by
     simp only [evaluate, eval, hx]; rfl
   simp only [renderList, renderNode, wrapFailAt, M.mapFail, bind, M.bind, M.getEnv, Prog.bind, hev,
     M.ofRes, pure, M.pure]
   split
   · next h => simp [GoVal.isNil] at h
-  simp only [hO, M.bind, M.pure, Prog.bind, writeAllM, bind, pure]
-  unfold writeM
-  simp only
-  split
-  · next hb =>
-    have : s.tw.buf = [] := by simpa using hb
-    simp only [Prog.bind, Prog.mapFail, Prog.runPure, this, M.pure]
-  · simp only [Prog.bind, Prog.mapFail, Prog.runPure, List.append_nil, M.pure]
+  simp only [hO, M.bind, M.pure, Prog.bind, writeAllM, bind, pure, Prog.bind_assoc]
+  rw [Prog.runPure_bind, Prog.runPure_mapFail]
+  obtain ⟨env, tw⟩ := s
+  obtain ⟨B, t⟩ := tw
+  simp only [Prog.runPure_bind, writeVerbatim_runPure, Prog.runPure, List.append_nil, M.pure]
 
 /-- **C12 (capture_equiv).** `{% capture x %}BODY{% endcapture %}{{ x }}` renders what `BODY`
     renders in place, and leaves the variables as `BODY` leaves them, plus `x`.
@@ -179,30 +168,32 @@ theorem print_str_var (c : RCtx) (hO : ∀ b, c.O.chunks (.str b) = .ok [b]) (li
     write of its bytes (`hO`; the standard one does, `stdOut_str`): if the block body `BODY`, rendered
     in place from state `s` on a fault-free writer, ends normally having put the bytes `R` through
     the trim writer and leaving the state `s'`, then the capture-and-print sequence from the same
-    state also ends normally, the bytes it has put through plus the text it leaves pending are
-    exactly `R` (`R = s.tw.buf ++ out`, where `s.tw.buf` is the text that was pending before and
-    `out` the captured text, now pending), and its variables are those of `s'` with `x` bound to
-    `out`.
+    state also ends normally, the bytes it has put through are exactly `R` (`R = s.tw.buf ++ out`,
+    where `s.tw.buf` is the text that was pending before and `out` the captured text, printed by the
+    object as a value: written through `WriteVerbatim`, so nothing of it is pending afterwards —
+    repair `fixes/verbatim-output-not-trimmed`; before it the captured text stayed pending), and its
+    variables are those of `s'` with `x` bound to `out`.
 
     Side conditions (both hold at the start of a render, where the trim writer is empty:
     `capture_equiv_root` has none):
     * `htrim`: no `-%}` is waiting to trim what comes next. In place it trims the first *write* of
-      the body only (and an all-blank first write uses it up), after the capture it trims the whole
-      captured text: `capture_needs_flag_clear` is a body where the two differ.
+      the body (when that is literal text), after the capture it is dropped by the object, which
+      prints the captured text as a value, untrimmed: `capture_needs_flag_clear` is a body where the
+      two differ.
     * `hbuf`: the pending text does not end in white space. A body starting with `{%-` trims the
       pending text in place, but inside the capture it finds an empty buffer:
       `capture_needs_no_trailing_space`.
     What is *not* claimed: that what follows sees the same trim-writer state. After the in-place
-    body the flag of a trailing `-%}` is still set and only the last written chunk can be trimmed
-    by a following `{%-`; after capture-and-print the flag is clear and the whole text is one
-    chunk (`capture_trailing_trim_differs`). -/
+    body the flag of a trailing `-%}` is still set and the last written chunk can be trimmed
+    by a following `{%-`; after capture-and-print the flag is clear and nothing is pending
+    (`capture_trailing_trim_differs`). -/
 theorem capture_equiv (c : RCtx) (hinc : IncQuiet c) (hO : ∀ b, c.O.chunks (.str b) = .ok [b])
     (l1 l2 : Nat) (x : Bytes) (body : List Node) (s s' : RS) (R : Bytes)
     (htrim : s.tw.trim = false) (hbuf : trimRightSpace s.tw.buf = s.tw.buf)
     (hbody : (renderBlockBody c body s).runPure = (R, .ok (.done, s'))) :
     ∃ out, R = s.tw.buf ++ out ∧
       (renderList c [.capture l1 x body, .obj l2 (.var x)] s).runPure =
-        (s.tw.buf, .ok (.done, { env := s'.env.set x (.str out), tw := { buf := out, trim := false } })) := by
+        (s.tw.buf ++ out, .ok (.done, { env := s'.env.set x (.str out), tw := { buf := [], trim := false } })) := by
   obtain ⟨env, tw⟩ := s
   obtain ⟨B, t⟩ := tw
   simp only at htrim hbuf
@@ -269,14 +260,7 @@ theorem capture_equiv_root (c : RCtx) (hinc : IncQuiet c) (hO : ∀ b, c.O.chunk
     subst hR
     unfold renderRoot
     rw [Prog.runPure_bind, hrun]
-    simp only [wrapFailAt, M.mapFail, List.nil_append]
-    unfold flushM
-    simp only
-    split
-    · next he =>
-      have : R = [] := by simpa using he
-      simp [Prog.mapFail, Prog.bind, Prog.runPure, this]
-    · simp [Prog.mapFail, Prog.bind, Prog.runPure]
+    simp [wrapFailAt, M.mapFail, flushM, Prog.mapFail, Prog.bind, Prog.runPure]
   | err e => simp at hbody
   | panic w => simp at hbody
   | unmodelled w => simp at hbody
@@ -295,13 +279,13 @@ theorem demoCtx_quiet : IncQuiet demoCtx := fun _ _ _ => trivial
 theorem demoOut_str (b : Bytes) : demoCtx.O.chunks (.str b) = .ok [b] := rfl
 
 /-- Non-vacuity of `capture_equiv`: pending text `x`, body `a {%- if … %}`-like
-    `[text "a ", trim-left, text "b"]`: in place the writer gets `xab`; the capture-and-print gets `x`
-    and holds `ab` — and `x` is bound to `ab`. -/
+    `[text "a ", trim-left, text "b"]`: in place the writer gets `xab`; so does the capture-and-print
+    — and `x` is bound to `ab`. -/
 example :
     ∃ out, [120, 97, 98] = [120] ++ out ∧
       (renderList demoCtx [.capture 1 [118] [.text 1 [97, 32], .trim true, .text 1 [98]], .obj 2 (.var [118])]
         ⟨[], { buf := [120], trim := false }⟩).runPure =
-      ([120], .ok (.done, { env := Env.set [] [118] (.str out), tw := { buf := out, trim := false } })) :=
+      ([120] ++ out, .ok (.done, { env := Env.set [] [118] (.str out), tw := { buf := [], trim := false } })) :=
   capture_equiv demoCtx demoCtx_quiet demoOut_str 1 2 [118] [.text 1 [97, 32], .trim true, .text 1 [98]]
     ⟨[], { buf := [120], trim := false }⟩ ⟨[], {}⟩ [120, 97, 98] rfl rfl (by
       simp [renderBlockBody, renderList, renderNode, wrapFailAt, M.mapFail, M.bind, M.pure, writeM, trimLeftM,
@@ -316,34 +300,33 @@ theorem capture_needs_no_trailing_space :
       ([97, 98], .ok (.done, ⟨[], {}⟩)) ∧
     (renderList demoCtx [.capture 1 [120] [.trim true, .text 1 [98]], .obj 1 (.var [120])]
         ⟨[], { buf := [97, 32], trim := false }⟩).runPure =
-      ([97, 32], .ok (.done, ⟨[([120], .str [98])], { buf := [98], trim := false }⟩)) := by
+      ([97, 32, 98], .ok (.done, ⟨[([120], .str [98])], { buf := [], trim := false }⟩)) := by
   constructor
   · simp [renderBlockBody, renderList, renderNode, wrapFailAt, M.mapFail, M.bind, M.pure, writeM, trimLeftM,
       flushM, Prog.bind, Prog.mapFail, Prog.runPure, bind, pure, demoCtx]
     rfl
   · simp [renderList, renderNode, wrapFailAt, wrapAt, M.mapFail, M.bind, M.pure, writeM, trimLeftM,
       flushM, captureM, Prog.bind, Prog.mapFail, Prog.runPure, bind, pure, demoCtx, M.setVar, M.getEnv, M.ofRes, evaluate,
-      eval, Env.set, Env.get, GoVal.toLiquid, GoVal.unwrap, GoVal.isNil, demoOut, writeAllM, Status.wrap]
+      eval, Env.set, Env.get, GoVal.toLiquid, GoVal.unwrap, GoVal.isNil, demoOut, writeAllM, writeVerbatimM, Status.wrap]
     rfl
 
 /-- **Counterexample (side condition `htrim`).** A `-%}` is armed, body = two writes `␠` and `␠b`
     (e.g. a blank text and an object printing `" b"`). In place the flag trims the first write
-    only (to nothing): the writer gets `␠b`. Captured, the text is `␠␠b`, and printing it with the
-    flag armed trims all of its leading blanks: `b`. -/
+    only (to nothing): the writer gets `␠b`. Captured, the text is `␠␠b`, and the object prints it
+    as a value: the armed flag is dropped, the writer gets `␠␠b`. -/
 theorem capture_needs_flag_clear :
     (renderBlockBody demoCtx [.text 1 [32], .text 1 [32, 98]] ⟨[], { buf := [], trim := true }⟩).runPure =
       ([32, 98], .ok (.done, ⟨[], {}⟩)) ∧
     (renderList demoCtx [.capture 1 [120] [.text 1 [32], .text 1 [32, 98]], .obj 1 (.var [120])]
         ⟨[], { buf := [], trim := true }⟩).runPure =
-      ([], .ok (.done, ⟨[([120], .str [32, 32, 98])], { buf := [98], trim := false }⟩)) := by
+      ([32, 32, 98], .ok (.done, ⟨[([120], .str [32, 32, 98])], { buf := [], trim := false }⟩)) := by
   constructor
   · simp [renderBlockBody, renderList, renderNode, wrapFailAt, M.mapFail, M.bind, M.pure, writeM,
       flushM, Prog.bind, Prog.mapFail, Prog.runPure, bind, pure, demoCtx]
     rfl
   · simp [renderList, renderNode, wrapFailAt, wrapAt, M.mapFail, M.bind, M.pure, writeM,
       flushM, captureM, Prog.bind, Prog.mapFail, Prog.runPure, bind, pure, demoCtx, M.setVar, M.getEnv, M.ofRes, evaluate,
-      eval, Env.set, Env.get, GoVal.toLiquid, GoVal.unwrap, GoVal.isNil, demoOut, writeAllM, Status.wrap]
-    rfl
+      eval, Env.set, Env.get, GoVal.toLiquid, GoVal.unwrap, GoVal.isNil, demoOut, writeAllM, writeVerbatimM, Status.wrap]
 
 /-- **Counterexample (what follows).** The equivalence is about the bytes of the fragment, not
     about the trim-writer state handed to what follows. Body `a{{ … -}}` = `[text "a", trim-right]`
@@ -359,7 +342,7 @@ theorem capture_trailing_trim_differs :
       flushM, Prog.bind, Prog.mapFail, Prog.runPure, bind, pure, demoCtx, h]
   · simp [renderRoot, renderList, renderNode, wrapFailAt, wrapAt, M.mapFail, M.bind, M.pure, writeM, trimRightM,
       flushM, captureM, Prog.bind, Prog.mapFail, Prog.runPure, bind, pure, demoCtx, M.setVar, M.getEnv, M.ofRes, evaluate,
-      eval, Env.set, Env.get, GoVal.toLiquid, GoVal.unwrap, GoVal.isNil, demoOut, writeAllM, Status.wrap]
+      eval, Env.set, Env.get, GoVal.toLiquid, GoVal.unwrap, GoVal.isNil, demoOut, writeAllM, writeVerbatimM, Status.wrap]
 
 /-- Non-vacuity of `capture_equiv_root`: the body `a {%- … %}b` renders `ab`, and so does its capture-and-print -/
 example :
